@@ -50,6 +50,7 @@ def generate(ctx):
         # the assignment sequence (values drawn now so that the descriptor is self-contained)
         seq = []
         keys = [k for k in d["c0"]]
+        cur = dict(d["c0"])
         for _ in range(d["nassign"]):
             k = rng.choice(keys + (["dtype"] if kind in ("neuron", "synapse", "connection", "reducer") else []))
             if k == "dt":
@@ -72,6 +73,12 @@ def generate(ctx):
                 # an assignment the setter documents as invalid comes first: it is refused, and a refused assignment leaves every
                 # reported value (and the behaviour) as it was
                 seq.append([k, {"dt": rng.choice([0.0, -1.0]), "batchsz": rng.choice([0, -2]), "delay": -1.0, "duration": -1.0}[k], "invalid"])
+            if k in ("dt", "delay", "maxdelay", "duration") and cur.get(k) and rng.random() < 0.15:
+                # a value a hair away from the current one (a configuration read back from a file, a product of two floats): it is
+                # a different value, reported back as given, and may sit on the other side of a whole number of steps
+                v = cur[k] * (1.0 + rng.choice([-1, 1]) * 5e-10)
+                d["nudged"] = True
+            cur[k] = v
             seq.append([k, v])
         d["seq"] = seq
         yield d
@@ -350,6 +357,8 @@ def run_case(ctx, desc):
     except Exception as e:  # noqa: BLE001
         return ctx.violation(ctx.exc_signature(e, f"construct.{kind}"), f"{type(e).__name__}: {str(e)[:160]}", desc)
     cfg = dict(desc["c0"])
+    if desc.get("nudged"):
+        ctx.count("cases_with_an_assignment_a_hair_away_from_the_current_value")
     for si, (k, v, *flag) in enumerate(desc["seq"]):
         rdesc = {**desc, "seq": desc["seq"][: si + 1]}
         if flag:
